@@ -140,6 +140,7 @@ func num(n *Node) (float64, bool) {
 }
 
 func (e *benv) see(x bd) bd {
+	x.b += 16 // any helper may answer with an error marker instead (<PARSE-ERROR> is the longest)
 	if x.e > x.b+1 {
 		x.e = x.b + 1
 	}
@@ -156,7 +157,8 @@ func bound(n *Node, e *benv) bd {
 	*e.work++
 	switch n.K {
 	case kLit, kRaw:
-		return e.see(bd{float64(len(n.S)), float64(strings.Count(n.S, "\x00") + 1)})
+		// x3: the compiler turns every byte of invalid UTF-8 into U+FFFD
+		return e.see(bd{3 * float64(len(n.S)), float64(strings.Count(n.S, "\x00") + 1)})
 	case kGroup:
 		if e.inSub {
 			switch n.S {
@@ -254,17 +256,24 @@ func bound(n *Node, e *benv) bd {
 		return e.see(bd{arr.e * (r.b + 1), arr.e * r.e})
 	case "@reduce":
 		arr := arg(0)
-		memo := bd{arr.b, 1}
+		memo := bd{arr.b, 1} // an empty initial value means "start from the first element"
 		if len(a) > 2 {
-			memo = arg(2)
+			if ini := arg(2); ini.b > memo.b {
+				memo = ini
+			}
 		}
+		best := memo
 		for i := 0.0; i < arr.e && i < 64; i++ {
 			memo = sub(1, memo, bd{arr.b, 1}, 1)
 			memo.e = memo.b + 1
+			if memo.b > best.b {
+				best = memo
+			}
 			if memo.b > boundCap {
 				break
 			}
 		}
+		memo = best // the array may be shorter than its bound: any prefix of the reduction can be the result
 		if arr.e > 64 {
 			*e.maxSeen = boundCap * 2 // do not reason about long reductions: reject
 		}
@@ -398,23 +407,20 @@ var sizePos = map[string]map[int]bool{
 	"bytesize": {1: true}, "bytesizesi": {1: true}, "downscale": {1: true},
 }
 
-// helpers whose pool-argument calls need a dedicated generator
-var specialArgs = map[string]bool{"@range": true, "@for": true}
-
 // ---------------------------------------------------------------- generator
 
 type gen struct {
 	c     *run.Ctx
 	names []string
 	// active known classes
-	kForParent, kSubNeg, kRange, kDivi, kModi, kRepeat, kEscape bool
+	kForParent, kSubNeg, kRange, kEscape bool
 }
 
 func newGen(c *run.Ctx, names []string) *gen {
 	sort.Strings(names)
 	return &gen{c: c, names: names,
 		kForParent: c.KnownActive(fpForParent), kSubNeg: c.KnownActive(fpSubCtxNeg), kRange: c.KnownActive(fpRangeOverflow),
-		kDivi: c.KnownActive(fpDiviZero), kModi: c.KnownActive(fpModiZero), kRepeat: c.KnownActive(fpRepeatNeg), kEscape: c.KnownActive(fpEscapeAtEnd)}
+		kEscape: c.KnownActive(fpEscapeAtEnd)}
 }
 
 // cb collects the primary context while a tree is generated.
@@ -688,14 +694,12 @@ func (g *gen) callNode(r *run.Rand, fn string, depth int, inSub bool, b *cb) *No
 	case 0:
 		n.Args = append(n.Args, g.arg(r, "any", 0, inSub, b))
 	case 1:
-		if len(n.Args) > 0 && !sizeAfterDrop(fn, len(n.Args)-1) {
+		if len(n.Args) > 0 && fn != "@for" && fn != "@range" {
 			n.Args = n.Args[:len(n.Args)-1]
 		}
 	}
 	return n
 }
-
-func sizeAfterDrop(fn string, newLen int) bool { return fn == "@for" || fn == "@range" }
 
 // subExpr: the mapper / reducer / condition body of an array helper.
 func (g *gen) subExpr(r *run.Rand, depth int, b *cb) *Node {
@@ -1039,10 +1043,16 @@ func ctxBound(ctxs []Ctx) bd {
 
 // admissible applies the resource guard to a generated tree.
 func admissible(root *Node, ctxs []Ctx) bool {
+	ok, _ := admissibleB(root, ctxs)
+	return ok
+}
+
+// admissibleB also returns the bound of the whole template's output.
+func admissibleB(root *Node, ctxs []Ctx) (bool, float64) {
 	var mx, work float64
 	e := &benv{ctx: ctxBound(ctxs), maxSeen: &mx, work: &work}
-	bound(root, e)
-	return mx <= boundCap && work <= workCap
+	r := bound(root, e)
+	return mx <= boundCap && work <= workCap, r.b
 }
 
 // sanitizeSizes is the safety net of the resource guard: whatever path built
@@ -1088,7 +1098,8 @@ func sanitizeSizes(n *Node, flat, inSub bool) {
 func (g *gen) finish(r *run.Rand, kind string, root *Node, b *cb, nRandom int) *Case {
 	sanitizeSizes(root, b.flat, false)
 	ctxs := g.contexts(r, b, nRandom)
-	if !b.capTest && !admissible(root, ctxs) {
+	okB, rootB := admissibleB(root, ctxs)
+	if !b.capTest && !okB {
 		return nil
 	}
 	if !g.rangesBounded(root, b, ctxs) {
@@ -1097,6 +1108,9 @@ func (g *gen) finish(r *run.Rand, kind string, root *Node, b *cb, nRandom int) *
 	}
 	cs := newCase(kind, root.String(), ctxs...)
 	cs.Uni = r.Bool()
+	if !b.capTest {
+		cs.maxOut = rootB
+	}
 	return cs
 }
 
@@ -1106,6 +1120,7 @@ func (g *gen) finish(r *run.Rand, kind string, root *Node, b *cb, nRandom int) *
 // constants and through groups), or a well-typed call with boundary values.
 func (g *gen) callsCase(r *run.Rand, i int) *Case {
 	fn := g.names[i%len(g.names)]
+	g.c.SetAdd("helpers_called", fn)
 	b := &cb{keys: map[string]string{}, flat: true}
 	var root *Node
 	if r.Intn(2) == 0 || sigs[fn] == nil {
